@@ -1279,6 +1279,26 @@ def rule_ag7(ctx: Ctx) -> RuleResult:
             r.ob(ok, lambda: mk_finding("AG-7", spec, None, cfg, p, "dump must emit dumps(item) + newline once per item; it emits %s" % summary(p), extra="dump"))
     # load: the only items removed after parsing are the None markers of blank / ignored lines (an empty object {} is an item)
     _check_none_filters(ctx, r, "AG-7", JSON, "load")
+    # load: the parser is given the line as it came: what dump wrote is a JSON text, and any rewriting of the raw text before it is parsed
+    # (a regular expression, replace, strip) cannot tell a string value from syntax
+    ml2, fl2 = ctx.function(JSON, "load")
+    seen_parse = 0
+    for n in ast.walk(ml2.tree):
+        if isinstance(n, ast.Call) and isinstance(n.func, ast.Attribute) and n.func.attr == "loads" and n.args and ml2.enclosing_function(n) is not None:
+            seen_parse += 1
+            f_ = ml2.enclosing_function(n)
+            a0 = n.args[0]
+            params = ml2.scopes[f_].params if f_ in ml2.scopes else []
+            rebound = [s for s in ast.walk(f_) if isinstance(s, (ast.Assign, ast.AugAssign)) and s.lineno <= n.lineno and not any(x is n for x in ast.walk(s)) and any(
+                isinstance(x, ast.Name) and isinstance(x.ctx, ast.Store) and isinstance(a0, ast.Name) and x.id == a0.id
+                for tg in (s.targets if isinstance(s, ast.Assign) else [s.target]) for x in ast.walk(tg))] if f_ is not None else []
+            ok = isinstance(a0, ast.Name) and a0.id in params and not rebound
+            r.ob(ok, lambda n=n, rebound=rebound: Finding(
+                "AG-7", "%s::load{parse-input}" % JSON, ml2.where(rebound[0] if rebound else n),
+                "the text handed to the JSON parser (%s) is not the line as it came%s: a rewrite of the raw line cannot tell a string value or a key from "
+                "JSON syntax, so some strings do not read back as written" % (ast.unparse(n)[:50], " (rewritten by '%s')" % ast.unparse(rebound[0])[:60] if rebound else "")))
+    if not seen_parse:
+        raise AnalysisError("json.load: no call of the JSON parser found")
     r.require_instances(1)
     return r
 
